@@ -595,3 +595,12 @@ var BaseTrusted = []string{
 	"the Lean driver's line-protocol decoding",
 	"Go compiler/runtime, reflect, sort, strconv, IEEE-754 float64 (assumed contracts)",
 }
+
+// FirstLines returns the first n lines of s joined by " | ".
+func FirstLines(s string, n int) string {
+	ls := strings.Split(strings.TrimSpace(s), "\n")
+	if len(ls) > n {
+		ls = ls[:n]
+	}
+	return strings.Join(ls, " | ")
+}
